@@ -102,6 +102,26 @@ inline void add_distinct(Ctx &c, const TasmanianSparseGrid &g, const Cfg &cfg){
     c.distinct.insert(vf::digest(k.str()));
 }
 
+
+// serialisation of the counters of a Ctx (child -> parent through a result pipe): used for nested watchdog children
+inline std::string pack(const Ctx &cc){
+    std::ostringstream r; r << "D " << cc.evals << " " << cc.states << " " << cc.transitions << " " << cc.execs << " " << cc.skipped << " " << cc.nviol; for(auto &dg : cc.distinct) r << " " << dg; r << "\n";
+    for(auto &kv : cc.outcomes) r << "O " << kv.second << " " << kv.first << "\n";
+    for(auto &kv : g_signew) r << "V " << kv.second << " " << kv.first << "\n";
+    r << "E\n"; return r.str();
+}
+inline bool merge(Ctx &c, const std::string &text){
+    std::istringstream in(text); std::string line; bool done = false;
+    while(std::getline(in, line)){
+        if (line.empty()) continue;
+        if (line[0] == 'D'){ std::istringstream ls(line.substr(2)); long a=0,b=0,t=0,e=0,sk=0,nv=0; ls >> a >> b >> t >> e >> sk >> nv; c.evals += a; c.states += b; c.transitions += t; c.execs += e; c.skipped += sk; c.nviol += (int) nv; std::string dg; while(ls >> dg) c.distinct.insert(dg); }
+        else if (line[0] == 'O'){ std::istringstream ls(line.substr(2)); long n = 0; ls >> n; std::string key; std::getline(ls, key); if (!key.empty() && key[0] == ' ') key = key.substr(1); c.outcomes[key] += n; }
+        else if (line[0] == 'V'){ std::istringstream ls(line.substr(2)); int nn = 0; ls >> nn; std::string sg; std::getline(ls, sg); if (!sg.empty() && sg[0] == ' ') sg = sg.substr(1); g_sigcount[sg] += nn; g_signew[sg] += nn; }
+        else if (line[0] == 'E') done = true;
+    }
+    return done;
+}
+
 struct UnitDef { std::string name; std::vector<Cfg> cfgs; };
 
 // runs all units (parallel workers; per unit: chunks of configurations in forked children with a watchdog)
